@@ -133,6 +133,11 @@ Fixpoint insert_at (i : nat) (c : nat) (l : list nat) : list nat :=
   | S i', x :: r => x :: insert_at i' c r
   | S _, [] => [c]
   end.
+(* l[i] with Python's negative indexes *)
+Definition py_nth {A} (l : list A) (i : Z) : option A :=
+  if (0 <=? i)%Z then nth_error l (Z.to_nat i)
+  else if (0 <=? Z.of_nat (length l) + i)%Z then nth_error l (Z.to_nat (Z.of_nat (length l) + i))
+  else None.
 Definition oid_eqb (a : option nat) (b : nat) : bool := match a with Some x => Nat.eqb x b | None => false end.
 
 (* ------------------------------------------------------------------------------------------ *)
@@ -250,14 +255,14 @@ Inductive op :=
   | ONewSub (lvl : level) (name dt : option str) (text : str)
   | OAdd (x c : nat)                                     (* x.add(c) *)
   | OSetAttr (x : nat) (names : list str) (v : hvalue)   (* x.n1...nk = v *)
-  | OSetIndex (x : nat) (names : list str) (i : nat) (v : hvalue)   (* x.n1...nk[i] = v *)
+  | OSetIndex (x : nat) (names : list str) (i : Z) (v : hvalue)     (* x.n1...nk[i] = v, i may be negative *)
   | OSetListIndex (x i : nat) (v : hvalue)               (* x.children[i] = v *)
   | ODelAttr (x : nat) (names : list str)                (* del x.n1...nk *)
-  | ODelIndex (x : nat) (names : list str) (i : nat)     (* del x.n1...nk[i] *)
+  | ODelIndex (x : nat) (names : list str) (i : Z)       (* del x.n1...nk[i] *)
   | ODelListIndex (x i : nat)                            (* del x.children[i] *)
   | ORemove (x c : nat)                                  (* x.children.remove(c) *)
   | OAddHelper (x : nat) (name : str)                    (* h = x.add_field(name) / add_component / add_subcomponent *)
-  | OGrab (x : nat) (names : list str) (i : nat)         (* h = x.n1...nk[i] *)
+  | OGrab (x : nat) (names : list str) (i : Z)           (* h = x.n1...nk[i] *)
   | OGrabList (x i : nat)                                (* h = x.children[i] *)
   | ORead (x : nat) (names : list str)                   (* evaluate x.n1...nk; repr = names of the proxy's list *)
   | OReadValue (x : nat) (names : list str)              (* x.n1...nk.value *)
@@ -510,14 +515,14 @@ Definition insert (p : nat) (index : nat) (c : nat) (by_name_index : nat) : M un
   lift (admission_checks P C) ;;
   do_insert p index c by_name_index.
 
-Definition finder (P : node) (k : option str) (i : nat) : option nat :=
-  match nth_error (iget k (n_idx P)) i with
+Definition finder (P : node) (k : option str) (i : Z) : option nat :=
+  match py_nth (iget k (n_idx P)) i with
   | Some c => Some c
-  | None => nth_error (iget k (n_tidx P)) i
+  | None => py_nth (iget k (n_tidx P)) i
   end.
 
 (* child_at_index(name, index): name as given by the caller; `guarded` marks the call from set() *)
-Definition child_at_index (guarded : bool) (p : nat) (name : str) (i : nat) : M (option nat) :=
+Definition child_at_index (guarded : bool) (p : nat) (name : str) (i : Z) : M (option nat) :=
   let! P := node_of p in
   let! '(cname, _) := lift (fcr P (upper name)) in
   if streqb cname name then ret (finder P (Some name) i)
@@ -753,10 +758,10 @@ Definition get_proxy (x : nat) (name : str) : M (nat * str) :=
                                | Some st => if has_map (n_st X) then
                                               match by_name st cn with
                                               | Some y => ref_dt (se_ref y)
-                                              | None => Err (Crash KeyError)
+                                              | None => HLe EChildNotFound     (* KeyError -> ChildNotFound (fix 0d2eed5) *)
                                               end
-                                            else Err (Crash TypeError)
-                               | None => Err (Crash TypeError)
+                                            else HLe EChildNotFound
+                               | None => HLe EChildNotFound
                                end) in
              let! c := proxy_element x pn in
              let! C := node_of c in
@@ -815,7 +820,7 @@ Fixpoint set_value_dt (fuel : nat) (x : nat) (dt text : str) : M unit :=
   end.
 
 (* children.set(name, value, index) *)
-Definition set_child (p : nat) (name : str) (v : value) (index : nat) : M unit :=
+Definition set_child (p : nat) (name : str) (v : value) (index : Z) : M unit :=
   (* isinstance(value, ElementProxy): value = value[0].to_er7() *)
   let! v := (match v with
              | VProxy o pn =>
@@ -833,7 +838,10 @@ Definition set_child (p : nat) (name : str) (v : value) (index : nat) : M unit :
                  | VText txt => parse_child p cname cref txt
                  | VElem c => ret c
                  | VDt dt txt =>
-                     let! c := create_element p name false (Some (cname, cref)) in
+                     (* create_element(name, False, reference, attach=False): built detached (fix b690ba1);
+                        child.value = value; it is attached below like any other child *)
+                     let! nd := lift (ctor_node P cname cref) in
+                     let! c := alloc nd in
                      set_value_dt 3 c dt txt ;; ret c
                  | VProxy _ _ => raise OutOfFuel
                  end) in
@@ -1006,7 +1014,7 @@ Definition write_value (x : nat) (names : list str) (text : str) : M unit :=
   set_value el text.
 
 (* x.<name>[i] = v *)
-Definition set_index (x : nat) (name : str) (i : nat) (v : value) : M unit :=
+Definition set_index (x : nat) (name : str) (i : Z) (v : value) : M unit :=
   let! '(o, pn) := get_proxy x name in
   set_child o pn v i.
 
@@ -1023,7 +1031,7 @@ Definition set_list_index (x : nat) (i : nat) (v : value) : M unit :=
       | Some bi =>
           match n_name C with
           | None => raise (Crash AttributeError)       (* None.upper() *)
-          | Some nm => set_child x nm v bi
+          | Some nm => set_child x nm v (Z.of_nat bi)
           end
       end
   end.
@@ -1052,10 +1060,10 @@ Definition del_attr (x : nat) (name : str) : M unit :=
   end.
 
 (* del x.<name>[i] *)
-Definition del_index (x : nat) (name : str) (i : nat) : M unit :=
+Definition del_index (x : nat) (name : str) (i : Z) : M unit :=
   let! '(o, pn) := get_proxy x name in
   let! O := node_of o in
-  match nth_error (iget (Some pn) (n_idx O)) i with
+  match py_nth (iget (Some pn) (n_idx O)) i with
   | None => raise (Crash IndexError)
   | Some c => remove_child o c
   end.
@@ -1148,7 +1156,7 @@ Definition op_m (r : rstate) (o : op) : M (option nat * str) :=
       let! x := H x in
       let! '(o, pn) := read_chain x names in
       let! O := node_of o in
-      match nth_error (iget (Some pn) (n_idx O)) i with
+      match py_nth (iget (Some pn) (n_idx O)) i with
       | None => raise (Crash IndexError)
       | Some c => none (remove_child o c)
       end
@@ -1159,7 +1167,7 @@ Definition op_m (r : rstate) (o : op) : M (option nat * str) :=
       let! x := H x in
       let! '(o, pn) := read_chain x names in
       let! O := node_of o in
-      match nth_error (iget (Some pn) (n_idx O)) i with
+      match py_nth (iget (Some pn) (n_idx O)) i with
       | None => raise (Crash IndexError)
       | Some c => ret (Some c, [])
       end
